@@ -194,7 +194,12 @@ class Worker:
                 if line.startswith(b"B "):
                     last_b = int(line.rsplit(b" ", 1)[1])
                 elif line.startswith(b"E "):
-                    events.append(json.loads(line[2:]))
+                    ev = json.loads(line[2:])
+                    if b'"too_deep"' in line and ev.get("o") == "ok":
+                        # the structural dump stopped at its depth bound: the observation is incomplete, which is
+                        # an inconclusive case for every monitor, never a value to compare
+                        ev = {"o": "skipped", "why": "value nested deeper than the dump bound", "ticks": ev.get("ticks")}
+                    events.append(ev)
                     n_local += 1
                 elif line.startswith(b"R "):
                     return {"events": events, "result": json.loads(line[2:])}
